@@ -4,6 +4,6 @@
 cd /verif
 PROPS=$(bin/f2gcheck -list)
 for d in "$@"; do for f in $d/*.diff; do case "$f" in *.tests.diff) continue;; esac; for p in $PROPS; do echo "$f $p"; done; done; done > /root/.benign.jobs
-cat /root/.benign.jobs | xargs -P 14 -L 1 bash -c 'out=$(/verif/bin/f2gcheck -prop $1 -patch $0 2>&1 | grep WITNESS-RESULT | cut -c1-400); echo "$0 $1 $out"' | sort > /root/.benign.out
+cat /root/.benign.jobs | xargs -P 8 -L 1 bash -c 'out=$(/verif/bin/f2gcheck -prop $1 -patch $0 2>&1 | grep WITNESS-RESULT | cut -c1-400); echo "$0 $1 $out"' | sort > /root/.benign.out
 echo "runs: $(wc -l < /root/.benign.out)"
 grep -v "violations=0 " /root/.benign.out | cut -c1-500
